@@ -212,8 +212,9 @@ def complete_ordering_constraint_against_id_order(case, v):
     below one of its options, so it can be activated earlier or independently): the ordering is applied in activation order: duplicated / missing architectures, NoOptionError while decoding"""
     spec = _spec(case)
     enc = case.get('enc') or case.get('mode') or _d(v).get('mode')
-    if enc not in ('COMPLETE', None) and v.get('kind') != 'reachable_set_differs_from_complete':
-        return False
+    if enc not in ('COMPLETE', None) and v.get('kind') != 'reachable_set_differs_from_complete' and \
+            not _d(v).get('from_complete_enumeration'):
+        return False   # (the last two compare the fast encoder with what the complete encoder lists / reaches)
     return _activation_against_id_order(spec, ('UNORDERED', 'UNORDERED_NOREPL'))
 
 
